@@ -165,7 +165,20 @@ impl<'a> World<'a> {
                 let text = self.word(&ev["w"]);
                 let toks: Vec<Value> = self.scanners[s].find_iter(&text).map(|m| tok(&m)).collect();
                 let twin: Option<Vec<Value>> = self.twins.get(s).and_then(|t| t.as_ref()).map(|t| t.find_iter(&text).map(|m| tok(&m)).collect());
-                json!({"toks": toks, "twin": twin})
+                // the mode names and peek_n(2) at the start, of the scanner and of its uncached twin
+                let show = |sc: &Scanner| -> Value {
+                    let names: Vec<String> = (0..).map_while(|k| sc.mode_name(k).map(|n| n.to_string())).collect();
+                    let (kind, ms, target): (&str, Vec<Match>, i64) = match sc.find_iter(&text).peek_n(2) {
+                        PeekResult::Matches(v) => ("M", v, -1),
+                        PeekResult::MatchesReachedEnd(v) => ("E", v, -1),
+                        PeekResult::MatchesReachedModeSwitch((v, t)) => ("S", v, t as i64),
+                        PeekResult::NotFound => ("N", vec![], -1),
+                    };
+                    json!({"names": names, "peek": {"kind": kind, "toks": ms.iter().map(tok).collect::<Vec<_>>(), "target": target}})
+                };
+                let shown = show(&self.scanners[s]);
+                let twin_shown = self.twins.get(s).and_then(|t| t.as_ref()).map(show);
+                json!({"toks": toks, "twin": twin, "names": shown["names"], "peek": shown["peek"], "twin_shown": twin_shown})
             }
             "next" => {
                 let (res, mode) = match &mut self.iters[h.unwrap()] {
@@ -331,6 +344,17 @@ pub fn differs(exp: &Value, obs: &Value) -> Option<String> {
             }
             if !obs["twin"].is_null() && obs["twin"] != obs["toks"] {
                 return Some(format!("cached scanner {} differs from its build_uncached twin {}", obs["toks"], obs["twin"]));
+            }
+            if exp.get("names").is_some() && exp["names"] != obs["names"] {
+                return Some(format!("mode names: specification {}, code {}", exp["names"], obs["names"]));
+            }
+            if let Some(adm) = exp.get("peekadm").and_then(|a| a.as_array()) {
+                if !adm.iter().any(|a| a["kind"] == obs["peek"]["kind"] && a["toks"] == obs["peek"]["toks"] && a["target"] == obs["peek"]["target"]) {
+                    return Some(format!("peek_n(2) at the start: admissible {}, code {}", exp["peekadm"], obs["peek"]));
+                }
+            }
+            if !obs["twin_shown"].is_null() && (obs["twin_shown"]["names"] != obs["names"] || obs["twin_shown"]["peek"] != obs["peek"]) {
+                return Some(format!("cached scanner shows {} / {}, its build_uncached twin {}", obs["names"], obs["peek"], obs["twin_shown"]));
             }
             None
         }
